@@ -75,6 +75,18 @@ CLAIMS = {
         "A call that is merely slow (Maven's quadratic trimming: 64 KiB of '-' parses in 12 s) is not reported as a hang; non-termination can only be suspected after the 100 s confirmation.",
         "DESIGN.md §7 C04",
     ),
+    "C16": (
+        "differential property-based testing (rapid) against pip's packaging library (26.x cross-checked with the vendored 21.3): requirement fields, name normalisation, and marker truth observed through resolution",
+        "Generated-input search with an independent oracle: PEP 508 requirement strings are parsed by pypi.ParseDependency and by packaging.Requirement and compared field by field (canonical name, extras set, specifier set, marker normalised through str(Marker())); names through CanonPackageName vs canonicalize_name; marker expressions are placed on a dependency in a two-level universe with requested extras and the presence of the guarded node in the resolved graph is compared with packaging's Marker.evaluate in the library's fixed environment, evaluated per requested extra as pip does. Asserted only where the two packaging versions agree. Holds on everything explored; not a proof.",
+        "Trusts packaging 26.3 and pip's vendored 21.3 (where they agree) as the reference for the modelled pip; the library's target environment is read from its generated source; atoms are variable-vs-literal (either order). Two listed findings are stepped around by narrow classes.",
+        "DESIGN.md §7 C16, §4.3",
+    ),
+    "C17": (
+        "exhaustive enumeration of descriptors and source declarations (descriptor relation, source-vs-generated comparison with a harness proto3 parser, gRPC method tables) plus property-based wire round trips (rapid)",
+        "The space is finite and enumerated completely: every service method, message, field, nested type, enum and enum value of v3 is compared with v3alpha; every declaration of both committed .proto files is compared both ways with the embedded descriptors of the generated Go packages; the gRPC ServiceDesc tables and FullMethodName constants are compared with the service descriptors; the resolver's system identifiers with the enum numbers. In addition random instances of every v3 message are marshalled and read back through the generated v3alpha types (no unknown fields, identical bytes and JSON).",
+        "Trusts the harness proto3 parser for the subset of the language the two files use, and google.golang.org/protobuf's reflection of the generated code.",
+        "DESIGN.md §7 C17",
+    ),
 }
 
 NOT_YET = "check under construction in this session (not yet claimed)"
